@@ -163,8 +163,11 @@ def run(chk):
                 L = (op2, (op1, ("lit", a), ("lit", b)), ("lit", c_))
                 R = (op1, ("lit", a), (op2, ("lit", b), ("lit", c_)))
                 try:
+                    il, ir = condgen.const_value(L[1]), condgen.const_value(R[2])
+                    if not (0 <= il < 2 ** 31 and 0 <= ir < 2 ** 31) or (op2 in ("shl", "shr") and ir > 40) or (op1 in ("shl", "shr") and (b > 40)):
+                        continue
                     vl, vr = condgen.const_value(L), condgen.const_value(R)
-                except ZeroDivisionError:
+                except (ZeroDivisionError, ValueError, OverflowError):
                     continue
                 if vl != vr and 0 <= vl < 2 ** 40 and 0 <= vr < 2 ** 40:
                     found = (L, R, vl, vr, a)
